@@ -705,11 +705,17 @@ class HistoryRun:
                 target = min([w.t_send + w.timeout + LATE_MS for _, w in self.overdue()] + [now + LATE_MS])
         else:
             target = max(self.due(GUARD_MS)) + MARGIN_MS
+        merged = False
         while True:
             near = [d for d in ds if target - MARGIN_MS < d <= target + MARGIN_MS]
             if not near:
                 break
             target = max(near) + MARGIN_MS
+            merged = True
+        if merged and not at_now and not self.oracle_only and any(st["deferred"] for st in self.m["conns"].values()):
+            # two deadlines too close to be scanned apart, and a client that has frames kept back: on the server the first
+            # time-out runs those frames BEFORE the second deadline passes, in the model's single scan after it: inconclusive
+            self.overrun = True
         while self.now() < target:
             time.sleep(min(0.02, (target - self.now()) / 1000.0 + 0.001))
         t = self.now()
@@ -1732,6 +1738,9 @@ def replay(path):
     for d in h.disagree:
         print("MODEL-DISAGREEMENT step %d: %s" % (d["step"], "; ".join(d["what"])))
     print("exclusion tags of the model:", h.tags)
+    if h.overrun:
+        print("INCONCLUSIVE: the run is timing-sensitive (deadlines too close to be scanned apart, or the machine was too slow); the check discards such runs")
+        return 0
     return 1 if (h.oracle or h.disagree) else 0
 
 
